@@ -418,9 +418,15 @@ func CheckC05(run *evid.Run) {
 			}
 			if vs := src.Values().Slice(); len(vs) >= 2 {
 				a, b := vs[len(vs)-1].GetHash(), vs[len(vs)-2].GetHash()
-				dup, err := entry.CreateEntryWithIO(x.W.Ctx, x.W.Store.API(), x.W.Idents[0], &entry.Entry{LogID: x.W.LogID, Payload: []byte(fmt.Sprintf("%d.%d/repeated-links", h.Seed, h.Idx)),
-					Next: []cid.Cid{a, a, b}, Refs: []cid.Cid{b, b, a}, Clock: entry.NewLamportClock(x.W.Idents[0].PublicKey, vs[len(vs)-1].GetClock().GetTime()+1)}, nil, x.W.IOv())
+				// (the public constructor removes repeats; such an entry comes from a peer - built here field by field, with a
+				// signature that does not fit, so the merge below is refused: all the more nothing may be written to it)
+				last := vs[len(vs)-1]
+				dup := &entry.Entry{LogID: x.W.LogID, Payload: []byte(fmt.Sprintf("%d.%d/repeated-links", h.Seed, h.Idx)), Next: []cid.Cid{a, a, b}, Refs: []cid.Cid{b, b, a}, V: 2,
+					Key: append([]byte(nil), last.GetKey()...), Sig: append([]byte(nil), last.GetSig()...), Identity: last.GetIdentity(),
+					Clock: entry.NewLamportClock(last.GetClock().GetID(), last.GetClock().GetTime()+1)}
+				dh, err := entry.ToMultihashWithIO(x.W.Ctx, dup, x.W.Store.API(), nil, x.W.IOv())
 				if err == nil {
+					dup.Hash = dh
 					ents := src.GetEntries()
 					ents.Set(dup.GetHash().String(), dup)
 					lo := x.W.LogOpts(x.W.LogID)
